@@ -33,6 +33,8 @@ CFG = {
     ),
     "C02": dict(
         algos=ELIM,
+        # heteroscedastic Auer with empirical widths: see C03 (seeded change C02-b was missed without it)
+        extra=[({"algos": ["Auer"], "envs": ["real_sim", "noise_adv"]}, 900, 20000)],
         props=["C02"],
         quick=260,
         thorough=9000,
@@ -75,6 +77,8 @@ CFG = {
     "C07": dict(
         algos=["PaVeBa", "PaVeBaGP", "PaVeBaPartialGP", "Auer", "VOGP", "EpsilonPAL", "VOGP_AD", "NaiveElimination", "DecoupledGP"],
         props=["C07", "C16"],
+        # many designs / sparse survivors (set iteration order != sorted order): seeded change C07-b
+        extra=[({"algos": ["PaVeBa", "Auer", "Auer", "NaiveElimination"], "features": {"big_K": True}}, 120, 4000)],
         quick=260,
         thorough=9000,
         need=dict(decided=("C07", 300)),
